@@ -3,7 +3,8 @@
    around the real Python code). *)
 From J1939 Require Import Base CodecGlue.
 From J1939.gen Require Import Codec Tp21Gen CaGen DiagGen.
-From J1939 Require Import Dm1Model.
+From J1939 Require Import Dm1Model Dm14Model.
+From J1939.gen Require Import Dm14Gen.
 
 Definition b2z (b : bool) : Z := if b then 1 else 0.
 Definition flat_frame (f : frame) : list Z :=
@@ -60,6 +61,28 @@ Definition item_dm1_parse (l : list Z) :=
   match dm1_parse l with
   | None => [0]
   | Some (lamps, ds) => 1 :: lamps ++ concat (map (fun d => [d_spn d; d_fmi d; d_oc d]) ds)
+  end.
+
+(* DM14 *)
+Definition item_dm14_payload (l : list Z) := dm14_payload (arg l 0) (arg l 1) (arg l 2) (arg l 3) (arg l 4).
+Definition item_dm14_fields (l : list Z) :=
+  [dm14_object_count l; dm14_command l; dm14_pointer_type l; dm14_direct l; dm14_access_level l; le_value (firstn 4 (skipn 2 l))].
+Definition item_dm15 (l : list Z) :=
+  let k := arg l 0 in
+  let f := if k =? 0 then dm15_WAIT_FOR_KEY else if k =? 1 then dm15_SEND_PROCEED else if k =? 2 then dm15_SEND_OPERATION_COMPLETE else dm15_SEND_ERROR in
+  f (arg l 1) (arg l 2) (arg l 3) (arg l 4) (arg l 5) (arg l 6).
+Definition item_dm15_fields (l : list Z) := [dm15_seed l; dm15_status l; dm15_error l; dm15_edcp l; dm15_length l].
+Definition item_dm14_v2b (l : list Z) := values_to_bytes (Z.to_nat (arg l 0)) (skipn 1 l).
+Definition item_dm14_b2v (l : list Z) := bytes_to_values (Z.to_nat (arg l 0)) (negb (arg l 1 =? 0)) (skipn 2 l).
+Definition item_dm16 (l : list Z) := dm16_frame l ++ [-1] ++ dm16_extract (dm16_frame l).
+Definition item_dm14_guard (l : list Z) :=
+  (* input: sa_known r, addr_known a0..a3, busy, error, sender, then the 8 DM14 bytes *)
+  let s := {| v_sa := if arg l 0 =? 0 then None else Some (arg l 1);
+              v_addr := if arg l 2 =? 0 then None else Some [arg l 3; arg l 4; arg l 5; arg l 6];
+              v_busy := negb (arg l 7 =? 0); v_error := arg l 8 |} in
+  match parse_dm14_decision s (arg l 9) (skipn 10 l) with
+  | Busy d p => 1 :: d :: p
+  | Accept => [0]
   end.
 
 (* comparison, computed inside Coq: indices of cases whose output differs *)
